@@ -147,7 +147,7 @@ def fingerprints(func: ast.AST) -> list[tuple[str, int, str]]:
             add(cur.name, f"except {_shape(cur.type, blank)}")
     seen: dict[str, int] = {}
     for name in order:
-        fp = hashlib.sha1("|".join(sites[name]).encode()).hexdigest()[:16]
+        fp = hashlib.sha1("|".join(sorted(set(sites[name]))).encode()).hexdigest()[:16]  # independent of the order of the sites
         k = seen.get(fp, 0)
         seen[fp] = k + 1
         out.append((fp, k, name))
